@@ -843,9 +843,10 @@ def check_writeback(ctx: Ctx) -> None:
             t0, t1 = head.ast.target.elts
             it = expand_expr(prog, tr, head.ast.iter, head, strict=False)
             if isinstance(t0, ast.Tuple) and t0.elts and isinstance(t0.elts[0], ast.Name) and isinstance(t1, ast.Name) and isinstance(it, ast.Call) \
-                    and norm(it.func) == "zip" and len(it.args) == 2:
+                    and norm(it.func) == "zip" and len(it.args) == 2 and all(k.arg == "strict" for k in it.keywords):
                 acc = expand_expr(prog, tr, it.args[1], head, strict=False)
-                seq = norm(it.args[0])
+                raw_it = head.ast.iter
+                seq = norm(raw_it.args[0]) if isinstance(raw_it, ast.Call) and len(raw_it.args) == 2 else norm(it.args[0])  # (the name, not what it was built from)
                 if isinstance(acc, ast.Call) and norm(acc.func) in ("accumulate", "itertools.accumulate") and acc.args \
                         and any(k.arg == "initial" and isinstance(k.value, ast.Constant) and k.value.value == 0 for k in acc.keywords):
                     g0 = acc.args[0]
